@@ -35,14 +35,16 @@ Definition c19_model (t : Z) (words keys : val) (refs : list val) : val :=
   let '(m, rss) := run_seq (c19_pool (Z.to_nat t) refs) (words, keys) in
   VL [VL (map VL rss); fst m; snd m; VZ 1; VZ 1].
 
-Definition c19_in_domain (t r : Z) : bool := (1 <=? t) && (t <=? 64) && (1 <=? r) && (r <=? 8).
+Definition c19_in_domain (t r : Z) (words keys calls : list val) : bool :=
+  (1 <=? t) && (t <=? 64) && (1 <=? r) && (r <=? 8) &&
+  (1 <=? Z.of_nat (List.length words)) && (2 <=? Z.of_nat (List.length keys)) && (1 <=? Z.of_nat (List.length calls)).
 
 Definition ops_C19 : list opdef := [
   {| op_name := "c19.Batch";
      op_run := fun a => match a with
        | [VZ t; VZ r; VL words; VZ tsize; VL keys; VL calls] =>
            match c19_refs calls with
-           | Some refs => if c19_in_domain t r then c19_model t (VL words) (VL keys) refs else VBad
+           | Some refs => if c19_in_domain t r words keys calls then c19_model t (VL words) (VL keys) refs else VBad
            | None => VBad
            end
        | _ => VBad end;
